@@ -1181,7 +1181,10 @@ SAMPLES = {
         S('extended-community', 'extended-community target:65000L:5'), S('extended-community', 'extended-community 0x0002FDE800000005', 'accept', w_ext_raw, ['0002fde800000005']),
         S('extended-community', 'extended-community 0x0002'), S('extended-community', 'extended-community 0x0002FDE80000000'), S('extended-community', 'extended-community target:1'),
         S('extended-community', 'extended-community bogus:1:2'), S('extended-community', 'extended-community target:1:2:3'),
-        S('extended-community', 'extended-community redirect-to-nexthop', 'accept'), S('extended-community', 'extended-community bandwidth:65000:100'),
+        S('extended-community', 'extended-community redirect-to-nexthop', 'accept'), S('extended-community', 'extended-community redirect-to-nexthop:0:0', 'refuse'),
+        S('bgp-prefix-sid-srv6', 'bgp-prefix-sid-srv6 ( l3-service 2001:db8::1 70000 )', 'refuse'),
+        S('bgp-prefix-sid-srv6', 'bgp-prefix-sid-srv6 ( l3-service 2001:db8::1 0x48 [ 256 , 0 , 0 , 0 , 0 , 0 ] )', 'refuse'),
+        S('bgp-prefix-sid-srv6', 'bgp-prefix-sid-srv6 ( l3-service 2001:db8::1 0x48 [ 40 , 24 , 16 , 0 , 0 , 0 ] )', 'accept'), S('extended-community', 'extended-community bandwidth:65000:100'),
         S('attribute', 'attribute [ 0x99 0xc0 0x0102 ]', 'accept'), S('attribute', 'attribute [ 0x999 0xc0 0x0102 ]'), S('attribute', 'attribute [ 0x99 0xc00 0x0102 ]'),
         S('attribute', 'attribute [ 0x99 0xc0 0x010 ]'), S('attribute', 'attribute [ 0x99 0xc0 ]'), S('attribute', 'attribute 0x99'),
         S('bgp-prefix-sid', 'bgp-prefix-sid [ ]'), S('bgp-prefix-sid', 'bgp-prefix-sid 5'), S('bgp-prefix-sid', 'bgp-prefix-sid [ 5 , [ ( 1 ) ] ]'),
@@ -1220,7 +1223,8 @@ SAMPLES = {
         FS('rate-limit', 'source 10.0.0.0/24 ;', 'rate-limit 16777217 ;', 'accept', w_rate(0x06), [16777217]),
         FS('rate-limit', 'source 10.0.0.0/24 ;', 'rate-limit 1000000000000 ;', 'accept', w_rate(0x06), [1000000000000]),
         FS('rate-limit', 'source 10.0.0.0/24 ;', 'rate-limit 1000000000001 ;'), FS('rate-limit', 'source 10.0.0.0/24 ;', 'rate-limit -1 ;', None, w_rate(0x06), [-1]),
-        FS('rate-limit', 'source 10.0.0.0/24 ;', 'rate-limit 9600 packets ;', 'accept', w_rate(0x0c), [9600]), FS('rate-limit', 'source 10.0.0.0/24 ;', 'rate-limit x ;'),
+        FS('rate-limit', 'source 10.0.0.0/24 ;', 'rate-limit 9600 packets ;', 'accept', w_rate(0x0c), [9600]),
+        FS('rate-limit', 'source 10.0.0.0/24 ;', 'rate-limit 1%s packets ;' % ('0' * 40)), FS('rate-limit', 'source 10.0.0.0/24 ;', 'rate-limit x ;'),
         FS('rate-limit', 'source 10.0.0.0/24 ;', 'rate-limit ;'),
         FS('source', 'source 10.0.0.0/33 ;', 'discard ;'), FS('source', 'source 10.0.0.1/24 ;', 'discard ;'), FS('source', 'source 256.0.0.0/8 ;', 'discard ;'),
         FS('source', 'source 10.0.0.0 ;', 'discard ;'), FS('source', 'source 10.0.0/24 ; destination-port =80 ;', 'discard ;', 'refuse'),
